@@ -13,7 +13,22 @@ import (
 const bfUniverse = 7
 
 func bfData(i int) []byte       { return []byte{byte('a' + i), byte(i)} }
-func bfID(b []byte) [32]byte    { return sha256.Sum256(b) }
+// bfID is the caller-supplied identifier function: sha256, except that element 0 maps to the all-zero identifier and
+// element 1 to the all-0xff identifier (an identifier function may produce any value of the identifier type, and
+// the zero value is the one a pre-filled or re-used slot would be confused with).
+func bfID(b []byte) [32]byte {
+	switch {
+	case len(b) == 2 && b[1] == 0:
+		return [32]byte{}
+	case len(b) == 2 && b[1] == 1:
+		var id [32]byte
+		for i := range id {
+			id[i] = 0xff
+		}
+		return id
+	}
+	return sha256.Sum256(b)
+}
 func bfName(id [32]byte) string { return fmt.Sprintf("%x", id[:3]) }
 
 // TestBytesFilter: the filter remembers the last N *newly added* distinct identifiers in FIFO order;
@@ -21,7 +36,7 @@ func bfName(id [32]byte) string { return fmt.Sprintf("%x", id[:3]) }
 // package's own test expects).
 func TestBytesFilter(t *testing.T) {
 	const check = "bytesfilter"
-	stats.Rule(check, "rapid state machine over bytesfilter.BytesFilter[[32]byte] with sha256 as identifier function, size N 1..4, universe of 7 byte strings; Add/AddIdentifier/Contains/ContainsIdentifier vs a FIFO of the last N newly added identifiers, membership of the whole universe compared after every step; non-trivial = an eviction happened, a known identifier was re-added (must not refresh) and a previously evicted identifier was added again; distinct by (N, operation list)")
+	stats.Rule(check, "rapid state machine over bytesfilter.BytesFilter[[32]byte] with sha256 as identifier function (element 0 maps to the all-zero and element 1 to the all-0xff identifier), size N 1..4, universe of 7 byte strings; Add/AddIdentifier/Contains/ContainsIdentifier vs a FIFO of the last N newly added identifiers, membership of the whole universe compared after every step; non-trivial = an eviction happened, a known identifier was re-added (must not refresh) and a previously evicted identifier was added again; distinct by (N, operation list)")
 	rapid.Check(t, func(rt *rapid.T) {
 		size := rapid.IntRange(1, 4).Draw(rt, "size")
 		h := newHist(check, fmt.Sprintf("size=%d", size))
